@@ -11,7 +11,7 @@ use refimpl::wire::{NegReply, INFO_AUTOLOGON};
 use serde::{Deserialize, Serialize};
 
 pub const LEVEL: &str = "exploration";
-pub const RULE: &str = "case = (option combination of {NLA, restricted admin, blank credentials, auto logon, password vs NT hash}, credential strings, server certificate key type) run as a whole connection through Connector::connect over real TLS against the reference CredSSP/NTLM + RDP server. Oracle: TSCredentials (unsealed by the reference server) and Client Info (strictly parsed) carry exactly what the mode prescribes (restricted admin: both empty and RESTRICTED_ADMIN_MODE_REQUIRED in the negotiation request; blank credentials: TSCredentials empty, Client Info populated; hash mode: TSCredentials password empty; INFO_AUTOLOGON iff requested); the password's UTF-8 / UTF-16LE / UTF-16BE encodings occur nowhere in the raw-transport transcript, in the NTLM tokens, or in any TLS-protected message other than TSCredentials and Client Info. licence-variants: the server answers the Client Info PDU with licensing error alerts of every error code x state transition (incl. ST_RESEND_LAST_MESSAGE) and other message types; connect may fail, but every Client Info PDU the server receives obeys the mode and no other frame contains the password. clear-text-server: the negotiation reply selects plain RDP security or nothing at all (never offered) and the reference server carries on in clear text, the raw transcript must not contain the password whatever connect returns. option-matrix also reconfigures a used Connector: every ordered pair of the 16 combinations of {NLA, restricted admin, blank credentials, auto logon} as (first connection, observed connection). option-matrix enumerates all 32 combinations twice with generated strings, and again x {empty, short, long, non-ASCII} password x {empty, non-empty} domain x {certificate checking on with the CA-signed identity, off}. Non-trivial = password with >= 6 UTF-16 units of which >= 4 distinct; distinct by hash of the case.";
+pub const RULE: &str = "case = (option combination of {NLA, restricted admin, blank credentials, auto logon, password vs NT hash}, credential strings, server certificate key type) run as a whole connection through Connector::connect over real TLS against the reference CredSSP/NTLM + RDP server. Oracle: TSCredentials (unsealed by the reference server) and Client Info (strictly parsed) carry exactly what the mode prescribes (restricted admin: both empty and RESTRICTED_ADMIN_MODE_REQUIRED in the negotiation request; blank credentials: TSCredentials empty, Client Info populated; hash mode: TSCredentials password empty; INFO_AUTOLOGON iff requested); the password's UTF-8 / UTF-16LE / UTF-16BE encodings occur nowhere in the raw-transport transcript, in the NTLM tokens, or in any TLS-protected message other than TSCredentials and Client Info. licence-variants: the server answers the Client Info PDU with licensing error alerts of every error code x state transition (incl. ST_RESEND_LAST_MESSAGE) and other message types; connect may fail, but every Client Info PDU the server receives obeys the mode and no other frame contains the password. clear-text-server: the negotiation reply selects plain RDP security or nothing at all (never offered) and the reference server carries on in clear text, the raw transcript must not contain the password whatever connect returns. option-matrix also calls the Connector's setters in ten other orders (some with redundant toggles) for every option combination, lets the server select PROTOCOL_SSL although HYBRID was offered, and reconfigures a used Connector: every ordered pair of the 16 combinations of {NLA, restricted admin, blank credentials, auto logon} as (first connection, observed connection). option-matrix enumerates all 32 combinations twice with generated strings, and again x {empty, short, long, non-ASCII} password x {empty, non-empty} domain x {certificate checking on with the CA-signed identity, off}. Non-trivial = password with >= 6 UTF-16 units of which >= 4 distinct; distinct by hash of the case.";
 
 #[derive(Serialize, Deserialize, Hash, Clone, Debug)]
 pub struct Case {
@@ -23,6 +23,9 @@ pub struct Case {
     /// setters; the observed connection must only reflect the final configuration
     #[serde(default)]
     pub previous: Option<Box<ClientCfg>>,
+    /// the server selects PROTOCOL_SSL although HYBRID was offered too (a legal answer)
+    #[serde(default)]
+    pub select_ssl: bool,
 }
 
 pub fn searchable(pw: &str) -> bool {
@@ -39,10 +42,11 @@ pub fn server_cfg(c: &Case) -> TlsServerCfg {
         None => crypto::nt_hash(&c.cfg.password),
     };
     let mut profile = ServerProfile::simple(c.user_id, 0x000103EA);
-    profile.selected_protocol = if c.cfg.nla { 2 } else { 1 };
+    let hybrid = c.cfg.nla && !c.select_ssl;
+    profile.selected_protocol = if hybrid { 2 } else { 1 };
     TlsServerCfg {
         identity: c.identity,
-        reply: NegReply::Response { flags: 0, selected: if c.cfg.nla { 2 } else { 1 } },
+        reply: NegReply::Response { flags: 0, selected: if hybrid { 2 } else { 1 } },
         nla: Some(NlaCfg { account_domain: c.cfg.domain.clone(), account_user: c.cfg.user.clone(), account_nt_hash: nt_hash, challenge: c.challenge.clone(), final_reply: FinalReply::Honest, challenge_override: None, ts_version: 2 }),
         profile,
         record_cut: 0,
@@ -63,7 +67,7 @@ pub fn run(c: &Case) -> Outcome {
         None => tls::run_tls(&c.cfg, &scfg, 5, true, &mut |_| ()),
         Some(prev) => {
             out.label("connector-reused");
-            let pc = Case { cfg: (**prev).clone(), identity: c.identity, challenge: c.challenge.clone(), user_id: c.user_id, previous: None };
+            let pc = Case { cfg: (**prev).clone(), identity: c.identity, challenge: c.challenge.clone(), user_id: c.user_id, previous: None, select_ssl: c.select_ssl };
             let mut connector = tls::connector_of(prev);
             // the first connection runs against a conforming server for that configuration; its outcome is not asserted here
             let _ = tls::run_tls_with_connector(&mut connector, prev, &server_cfg(&pc), 5, true);
@@ -82,7 +86,13 @@ pub fn run(c: &Case) -> Outcome {
     if c.cfg.hash.is_some() {
         out.label("hash");
     }
-    if c.cfg.nla && c.challenge.flags & ntlm::NEG_UNICODE == 0 {
+    if c.select_ssl {
+        out.label("ssl-selected-although-nla-offered");
+    }
+    if c.cfg.setter_order != 0 {
+        out.label("other-setter-order");
+    }
+    if c.cfg.nla && !c.select_ssl && c.challenge.flags & ntlm::NEG_UNICODE == 0 {
         out.label("oem-challenge");
     }
     if run.client_timeout || run.report.timeout {
@@ -136,7 +146,7 @@ pub fn run(c: &Case) -> Outcome {
     let unicode = c.challenge.flags & ntlm::NEG_UNICODE != 0;
     let enc = |s: &str| if unicode { crypto::utf16le(s) } else { s.as_bytes().to_vec() };
     let emptied = c.cfg.restricted_admin || c.cfg.blank_creds;
-    if c.cfg.nla {
+    if c.cfg.nla && !c.select_ssl {
         match &rep.nla.credentials {
             Some(Ok(tc)) => {
                 let (wd, wu, wp) = if emptied { (vec![], vec![], vec![]) } else { (enc(&c.cfg.domain), enc(&c.cfg.user), if c.cfg.hash.is_some() { vec![] } else { enc(&c.cfg.password) }) };
@@ -485,6 +495,8 @@ fn licence_cases() -> Vec<LicCase> {
 pub fn gen_case(s: &mut Src, opts: Option<u8>) -> Case {
     let bits = opts.unwrap_or_else(|| s.below(32) as u8);
     let reuse = opts.is_none() && s.chance(64);
+    let select_ssl = s.chance(56);
+    let order_choice = s.u16();
     let domain = gen_name(s, 12);
     let user = {
         let u = gen_name(s, 12);
@@ -518,6 +530,7 @@ pub fn gen_case(s: &mut Src, opts: Option<u8>) -> Case {
         blank_creds: bits & 4 != 0,
         nla: bits & 1 != 0,
         check_certificate: false,
+        setter_order: if opts.is_none() && order_choice % 3 == 0 { order_choice | 1 } else { 0 },
     };
     let identity = s.below(4) as u8;
     let user_id = crate::gen::gen_user_id(s);
@@ -537,7 +550,8 @@ pub fn gen_case(s: &mut Src, opts: Option<u8>) -> Case {
     } else {
         None
     };
-    Case { cfg, identity, challenge, user_id, previous }
+    let select_ssl = cfg.nla && select_ssl;
+    Case { cfg, identity, challenge, user_id, previous, select_ssl }
 }
 
 fn matrix() -> Vec<Case> {
@@ -546,6 +560,30 @@ fn matrix() -> Vec<Case> {
         for k in 0..2u8 {
             let seed = [bits.wrapping_mul(37).wrapping_add(k), 3, 200, 7, 99, 250, 4, 180, 66, 10, 20, 30, 222, 111, 5, 77, 200, 9, 9, 9, 130, 140, 150, 160, 170, 1, 2, 3, 4, 5, 6, 7, 8, 9, 10, 11, 12];
             v.push(gen_case(&mut Src::new(&seed), Some(bits)));
+        }
+    }
+    // every option combination with the setters called in other orders (with and without redundant toggles), and with a
+    // server that selects PROTOCOL_SSL although HYBRID was offered as well
+    for bits in 0..32u8 {
+        for order in [1u16, 2, 5, 11, 77, 1234, 0x8001, 0x8007, 0x8123, 0xFFFF] {
+            let seed = [bits ^ 0x44, order as u8, 9, 77, 31, 250, 4, 180, 66, 10, 20, 30, 222, 111, 5, 77, 200];
+            let mut c = gen_case(&mut Src::new(&seed), Some(bits));
+            c.cfg.password = format!("0rd3r-p4ss-{}-{}", bits, order);
+            c.cfg.user = "Administrator".into();
+            c.cfg.domain = "CONTOSO".into();
+            c.cfg.setter_order = order;
+            c.challenge.flags |= ntlm::NEG_UNICODE;
+            c.select_ssl = bits & 1 != 0 && order % 2 == 0;
+            v.push(c);
+        }
+        if bits & 1 != 0 {
+            let seed = [bits ^ 0x45, 3, 9, 77, 31, 250, 4, 180, 66, 10, 20, 30, 222, 111, 5, 77, 200];
+            let mut c = gen_case(&mut Src::new(&seed), Some(bits));
+            c.cfg.password = format!("S5L-p4ss-{}", bits);
+            c.cfg.user = "Administrator".into();
+            c.cfg.domain = "CONTOSO".into();
+            c.select_ssl = true;
+            v.push(c);
         }
     }
     // a Connector used under one option combination, then reconfigured to another: every ordered pair of the 16
@@ -618,4 +656,6 @@ pub fn check(rep: &Report) {
     rep.require("option-matrix", "completed", 500);
     rep.require("option-matrix", "oem-challenge", 50);
     rep.require("option-matrix", "connector-reused", 200);
+    rep.require("option-matrix", "other-setter-order", 200);
+    rep.require("option-matrix", "ssl-selected-although-nla-offered", 20);
 }
